@@ -9,6 +9,7 @@ import (
 
 	"github.com/dave/dst"
 	"github.com/dave/dst/decorator"
+	"github.com/dave/dst/decorator/resolver/goast"
 	"github.com/dave/dst/decorator/resolver/gotypes"
 	"github.com/dave/dst/decorator/resolver/simple"
 )
@@ -142,6 +143,75 @@ func c10Split(c *Ctx) {
 					}
 				}
 			}
+		}
+	}
+}
+
+// c10PackageLine: code moved out of a package that was decorated as a whole (DecorateNode on an
+// *ast.Package, what Decorator.ParseDir does) with the syntax-based resolver. Two files bind the same
+// import name to different packages; the function that moves stands behind a //line directive that
+// names the sibling file (generated code: the positions adjusted by the directive lie in the other
+// file). In the target the moved code refers to what it referred to.
+func c10PackageLine(c *Ctx) {
+	names := map[string]string{"app/src": "src", "app/dst": "dst"}
+	for p, n := range impPkg {
+		names[p] = n
+	}
+	for _, dir := range []string{"", "//line t.go:7\n", "/*line t.go:7:1*/ ", "//line other.y:3\n"} {
+		key := fmt.Sprintf("package-line|%q", dir)
+		c.Eval(key, dir != "")
+		sGo := "package src\n\nimport \"a/x\"\n\n" + dir + "func Moved() int { return x.F2(x.V2) }\n"
+		tGo := "package src\n\nimport \"b.io/x\"\n\nfunc Other() int { return x.F3(x.V3) }\n"
+		u := newUniverse(append(c10Libs(), &memPkg{Import: "app/src", Path: "app/src", Files: map[string]string{"s.go": sGo, "t.go": tGo}})...)
+		_, info, afs, err := u.Check("app/src")
+		if err != nil {
+			c.Infra("c10PackageLine: the source does not type-check: " + err.Error())
+			return
+		}
+		norm := func(fs []identFact) string {
+			var s []string
+			for _, f := range fs {
+				s = append(s, f.Pkg+"."+f.Obj)
+			}
+			sort.Strings(s)
+			return strings.Join(s, " ")
+		}
+		before := norm(declFacts(afs[0].Decls[1], info))
+		pkg := &ast.Package{Name: "src", Files: map[string]*ast.File{"app/src/s.go": afs[0], "app/src/t.go": afs[1]}}
+		d := decorator.NewDecoratorWithImports(u.fset, "app/src", goast.WithResolver(simple.New(names)))
+		var dn dst.Node
+		if msg := guard(func() { dn, err = d.DecorateNode(pkg) }); msg != "" || err != nil {
+			c.Fail(Finding{Sig: "move-decorate-fails", Input: key, What: fmt.Sprintf("package decoration: %s %v", msg, err), Replay: obj{"kind": "none"}})
+			continue
+		}
+		sf := dn.(*dst.Package).Files["app/src/s.go"]
+		if sf == nil || len(sf.Decls) != 2 {
+			c.Infra("c10PackageLine: unexpected decorated package")
+			return
+		}
+		moved := sf.Decls[1]
+		sf.Decls = sf.Decls[:1]
+		tf := &dst.File{Name: dst.NewIdent("dst"), Decls: []dst.Decl{moved}}
+		var buf bytes.Buffer
+		var rerr error
+		if msg := guard(func() { rerr = decorator.NewRestorerWithImports("app/dst", simple.New(names)).Fprint(&buf, tf) }); msg != "" || rerr != nil {
+			c.Fail(Finding{Sig: "move-restore-fails", Input: key, What: fmt.Sprintf("%s %v", msg, rerr), Replay: obj{"kind": "none"}})
+			continue
+		}
+		ju := newUniverse(append(c10Libs(), &memPkg{Import: "app/dst", Path: "app/dst", Files: map[string]string{"t.go": buf.String()}})...)
+		_, jinfo, jafs, err := ju.Check("app/dst")
+		if err != nil {
+			c.Fail(Finding{Sig: "moved-code-does-not-type-check", Input: key, What: err.Error() + "\n" + buf.String(), Replay: obj{"kind": "none"}})
+			continue
+		}
+		after := ""
+		for _, dcl := range jafs[0].Decls {
+			if fd, ok := dcl.(*ast.FuncDecl); ok && fd.Name.Name == "Moved" {
+				after = norm(declFacts(fd, jinfo))
+			}
+		}
+		if after != before {
+			c.Fail(Finding{Sig: "reference-changed", Input: key, What: fmt.Sprintf("identifiers of the moved code denoted {%s}, now {%s}\n%s", before, after, buf.String()), Replay: obj{"kind": "none"}})
 		}
 	}
 }
